@@ -147,7 +147,7 @@ class SeriesOps:
             cn = values.colnames()
             col = values.col(cn[0]) if cn and len(cn) == 1 else ("allcols",)
             return ("in", t, ("valuesof", col, values.ctx()))
-        return ("in", t, to_term(values))
+        return T.isin(t, to_term(values))
 
     def _series_to_frame(self, s: Ser, name, node) -> Frame:
         """Series.to_frame(name) / pd.DataFrame(series): one column, named after the series, same rows and index"""
